@@ -56,7 +56,63 @@ fn emit_history(ctx: &mut Ctx, kind: &str, templates: &[Vec<Node>], datas: &[Obj
     }
 }
 
+/// Histories over templates given as text (filter chains, very large outputs) through BOTH render APIs
+/// (`render_to` into a fresh buffer and the buffered `Template::render`), each call compared with a fresh
+/// parser on a fresh thread; judged by that comparison alone (`c09x`).
+fn text_histories(ctx: &mut Ctx) {
+    let partials: Vec<PartialDef> = vec![("sig".into(), Ok(vec![text("<"), out(var("name")), text(">")]))];
+    let texts = [
+        "{{ \"Hello, \" | append: name | upcase }}|{% assign p = \"/\" | append: name | append: \"/x\" %}{{ p }}|{{ name | append: \"!\" | prepend: \"<\" }}",
+        "{{ \"a,b\" | split: sep | join: name }}|{{ 2 | plus: n | times: 3 }}|{{ \"x\" | default: name | size }}|{% include 'sig' %}",
+        "{% for i in (1..140000) %}xxxxxxxxx{% endfor %}",
+        "plain text, no markup",
+        "  {{- name -}}  {% raw %}{{ r }}{% endraw %}",
+    ];
+    let mk = |name: &str, sep: &str, n: i64| {
+        let mut d = Object::new();
+        d.insert("name".into(), Value::scalar(name.to_string()));
+        d.insert("sep".into(), Value::scalar(sep.to_string()));
+        d.insert("n".into(), Value::scalar(n));
+        d
+    };
+    let datas = [mk("Ann", ",", 1), mk("Bob", "b", 40)];
+    let shared = build_parser(&partials, Policy::Lazy);
+    let objects: Vec<_> = texts.iter().map(|s| parse_once(&shared, s)).collect();
+    // every ordered pair of calls, plus a long alternating run; the big template only ever first
+    let mut hists: Vec<Vec<(usize, usize)>> = Vec::new();
+    for t in [0usize, 1, 3, 4] {
+        for (d1, d2) in [(0usize, 1usize), (1, 0), (0, 0)] {
+            hists.push(vec![(t, d1), (t, d2), (t, d1)]);
+        }
+    }
+    hists.push(vec![(2, 0), (3, 0), (4, 1), (0, 1)]);
+    hists.push(vec![(0, 0), (2, 1), (4, 0), (3, 1), (1, 1)]);
+    for hist in hists {
+        for (pos, (ti, di)) in hist.iter().enumerate() {
+            let streamed = render_parsed(&objects[*ti], &datas[*di]);
+            let buffered = match &objects[*ti] {
+                Ok(t) => match std::panic::catch_unwind(std::panic::AssertUnwindSafe(|| t.render(&datas[*di]))) {
+                    Ok(Ok(s)) => Obs::Ok(s),
+                    Ok(Err(e)) => Obs::Err(e.to_string()),
+                    Err(e) => Obs::Panic(panic_msg(e)),
+                },
+                Err(e) => Obs::ParseErr(e.clone()),
+            };
+            let fresh = std::thread::scope(|sc| {
+                sc.spawn(|| render_text(&build_parser(&partials, Policy::Lazy), texts[*ti], &datas[*di])).join().unwrap_or(Obs::Panic("reference thread".into()))
+            });
+            if *ti == 2 {
+                // too large to print: only its effect on what follows is observed
+                continue;
+            }
+            let k = if streamed.tokens() != fresh.tokens() || buffered.tokens() != fresh.tokens() { format!("LEAK:{}:{}", hist.len(), pos) } else { format!("text:{}:{}", hist.len(), pos) };
+            ctx.emit(format!("c09x {} => {} #{}:{}", k, buffered.tokens(), crate::proto::xs(texts[*ti]), crate::proto::xs(&serde_json::to_string(&datas[*di]).unwrap_or_default())));
+        }
+    }
+}
+
 pub fn run(ctx: &mut Ctx) {
+    text_histories(ctx);
     // --- fixed set, exhaustive histories k <= 3 (thorough: 4) ---
     let templates = fixed_templates();
     let p1: Vec<Node> = vec![text("<p1:"), Node::Incr("n".into()), Node::Assign("a".into(), lit_s("p"), vec![]), text(">")];
